@@ -33,7 +33,9 @@ RULE = ("Generated source universes (1-3 local bare git repositories: linear bra
         "ref, dir, add/remove/reorder SCM, digest refresh, 'bump' = upstream publishes and the recipe follows) or "
         "upstream events (commit, branch, tag, new unrelated/forked repository, replaced url file, import file "
         "add/modify/delete)][one Bob invocation: dev, dev --clean-checkout, dev --no-attic, clean, clean -s (also "
-        "after dropping all SCMs), clean --attic; never forced]. Oracle B after EVERY invocation regardless of its "
+        "after dropping all SCMs), clean --attic; never forced]; one case in five is a clean scenario (one kind of user "
+        "state, an edit that retires the workspace, dev, clean --attic, drop all SCMs, clean -s), one in five has no "
+        "user action at all (pure convergence). Oracle B after EVERY invocation regardless of its "
         "exit status: every file marker exists byte-identical in a file below the project root, every commit marker "
         "is in `git rev-list --all HEAD` of a repository below the project root. Oracle A at the end: after a final "
         "`bob dev root`, if a fresh `bob dev root` of the final spec at another path succeeds, the incremental "
@@ -627,11 +629,11 @@ user_st = st.tuples(st.just("user"), st.sampled_from(USER_KINDS), st.integers(0,
 BOB_WEIGHTED = ["dev"] * 7 + ["dev-full"] * 2 + ["dev-cc"] * 4 + ["dev-noattic"] * 2 + ["clean"] + ["clean-attic"] * 3 + ["clean-s"] + ["clear+clean-s"] * 2
 
 @st.composite
-def round_st(draw):
+def round_st(draw, users=True):
     # (one_of() merges identical alternatives, so weights are expressed through sampled_from)
-    nuser = draw(st.sampled_from([0, 1, 1, 1, 2, 2, 3]))
+    nuser = draw(st.sampled_from([0, 0, 1, 1, 1, 2, 2, 3])) if users else 0
     ops = [draw(user_st) for _ in range(nuser)]
-    nchg = draw(st.sampled_from([0, 1, 1, 1, 2, 2]))
+    nchg = draw(st.sampled_from([0, 1, 1, 1, 2, 2] if users else [1, 1, 2, 2, 3]))
     for _ in range(nchg):
         ops.append(draw(edit_st) if draw(st.integers(0, 9)) < 6 else draw(up_st))
     v = draw(st.sampled_from(BOB_WEIGHTED))
@@ -641,12 +643,32 @@ def round_st(draw):
         ops.append(["bob", v])
     return ops
 
+@st.composite
+def clean_scenario_st(draw):
+    """one kind of user state, then the workspace leaves the recipe (attic / unreferenced) and `bob clean` decides"""
+    kind = draw(st.sampled_from(USER_KINDS))
+    slot = draw(st.integers(0, 2))
+    ops = [["user", kind, slot, draw(I6)] for _ in range(draw(st.sampled_from([1, 1, 2])))]
+    e = draw(st.sampled_from(["e_dir", "e_dir", "e_del", "e_src", "e_ref", "e_clear", "none"]))
+    if e == "e_dir": ops.append([e, slot, draw(st.integers(0, 4))])
+    elif e == "e_del": ops.append([e, slot])
+    elif e == "e_src": ops.append([e, slot, draw(I6)])
+    elif e == "e_ref": ops.append([e, slot, draw(ref_st)])
+    elif e == "e_clear": ops.append([e])
+    ops.append(["bob", draw(st.sampled_from(["dev", "dev", "dev-cc"]))])
+    ops.append(["bob", "clean-attic"])
+    if draw(st.integers(0, 1)):
+        ops += [["e_clear"], ["bob", "clean-s"]]
+    return ops
+
 def case_st(quick):
     return st.fixed_dictionaries({
         "pre": st.lists(up_st, max_size=3),
         "spec": st.tuples(st.sampled_from([1, 1, 1, 2, 2, 3]).flatmap(lambda n: st.lists(entry_st, min_size=n, max_size=n)),
                           st.integers(0, 7)).map(lambda t: [dict(t[0][0], t="git")] + t[0][1:] if t[1] else t[0]),
-        "history": st.lists(round_st(), min_size=2, max_size=3 if quick else 6).map(lambda rs: [o for r in rs for o in r]),
+        # (Hypothesis prefers the first alternatives in its early examples: the general form comes first)
+        "history": st.sampled_from([0, 1, 2, 3, 4]).flatmap(lambda k: clean_scenario_st() if k == 4 else
+                   st.lists(round_st(users=k != 3), min_size=2, max_size=3 if quick else 6).map(lambda rs: [o for r in rs for o in r])),
     })
 
 
